@@ -278,10 +278,14 @@ def check(prog, res, tier):
             if e.kind == 'read' and e.data['file'] is fin:
                 last_read = e
                 sz = e.data['size']
-                if sz is None:
-                    fails.append(definite('unblock_1014 reads the whole input at once', e.node))
-                else:
-                    fails += need_eq0(st, Lin.of(sz) - BLOCK, f'unblock_1014 reads {sz} bytes per block', e.node)
+                szc = st.canon(Lin.of(sz)) if sz is not None else None
+                if szc is None or not szc.is_const() or abs(szc.c - BLOCK) > 2:
+                    # a bulk read with the blocks validated and cut out afterwards: not the block-by-block ladder this rule
+                    # follows.  Reading the *other* block constant (1012 for 1014) stays a violation.
+                    seen_e['reads'] += mode == 'inv'
+                    return fails + [soft(f'unblock_1014 reads {sz if sz is not None else "the whole input"} bytes at a time and cuts the '
+                                         f'blocks out afterwards: outside the model of this rule', e.node)]
+                fails += need_eq0(st, Lin.of(sz) - BLOCK, f'unblock_1014 reads {sz} bytes per block', e.node)
             if e.kind == 'write' and e.data['file'] is fout:
                 d = e.data['data']
                 if last_read is None:
